@@ -39,6 +39,9 @@ HOSTILE = [": colon", " #hash", "- dash", "*star", "&amp", "!bang", "|pipe", ">g
            "null", "true", "123", "1.5", "~", "ünï", " lead", "trail ", "a: b", "{{.InterfaceName}}Mock", "x\ty", "yes", "<<", "=", "0x1f", "multi\nline"]
 
 
+PATH_SHAPES = ["{{.InterfaceDir}}/../%s", "{{.InterfaceDir}}/%s/", "./{{.InterfaceDirRelative}}//%s", "%s/../x/./y", "./%s", "%s//sub/", "/abs/%s/..", "../%s"]
+
+
 class Gen:
     def __init__(self, rng):
         self.rng = rng
@@ -61,6 +64,9 @@ class Gen:
         if t == "bool":
             return r.random() < 0.5
         if t == "str":
+            if r.random() < 0.15:
+                # path-shaped values are carried as written: `..` segments after a template variable, trailing / doubled separators, a leading ./
+                return r.choice(PATH_SHAPES) % self.marker(key)
             return self.marker(key)
         if t == "strs":
             # list entries are carried verbatim: trailing separators, a bare "/", surrounding blanks and empty entries included
@@ -227,6 +233,19 @@ def gen_cases(ctx):
     for lvl in ("top", "pkg", "iface", "configs"):
         c = {k: "" for k in strkeys}
         t = {"dir": "inherited-dir", "mockname": "Inherited{{.InterfaceName}}", "packages": {"example.com/x/q": {"config": {"outpkg": "inheritedpkg"}, "interfaces": {"I": {"config": {}, "configs": [{}, {}]}}}}}
+        if lvl == "top":
+            t.update(c)
+        elif lvl == "pkg":
+            t["packages"]["example.com/x/q"]["config"] = c
+        elif lvl == "iface":
+            t["packages"]["example.com/x/q"]["interfaces"]["I"]["config"] = c
+        else:
+            t["packages"]["example.com/x/q"]["interfaces"]["I"]["configs"][1] = c
+        cases.append({"i": len(cases), "tree": t})
+    # path-shaped values for every string-valued mapped key, at every level (fixed witnesses)
+    for j, lvl in enumerate(("top", "pkg", "iface", "configs")):
+        c = {k: PATH_SHAPES[(j + n2) % len(PATH_SHAPES)] % ("w%d-%s" % (j, k)) for n2, k in enumerate(k for k in strkeys if k not in ("log-level", "config"))}
+        t = {"packages": {"example.com/x/q": {"config": {}, "interfaces": {"I": {"config": {}, "configs": [{}, {}]}}}}}
         if lvl == "top":
             t.update(c)
         elif lvl == "pkg":
